@@ -218,6 +218,19 @@ CHECKS = {
         "note": TRUSTED + " The synthetic model is not replayed into the code (it has a synthetic national "
                           "algorithm); the binding is the trace validation on the real data.",
     },
+    "C16": {
+        "technique": "TLA+ spec (Values: compact-string semantics, copies) + TLC: exhaustive MC_Values over object pairs x "
+                     "copy operations x observations, every state replayed on real objects (tlc -dump), trace "
+                     "validation (TraceValues) of random object pairs",
+        "text": "MC_Values: 13 base objects (IBAN/BIC/BBAN in compact, spaced and lower-case spelling, an unvalidated "
+                "invalid IBAN, plain strings) squared, each passed through <= 1-2 of copy / deepcopy / pickle 0,2,5, "
+                "observed by cmp (six operators) / hash / dict+set / sort / props: equality is an equivalence, order "
+                "total and consistent, copies the same value. All ~2e4 observation states are replayed on real "
+                "objects; plus 6e3 / 1.2e5 random pairs from a population of valid and unvalidated IBANs of all "
+                "countries, their BBANs, registry BICs and plain strings with pickle protocols 0-5.",
+        "design_ref": "DESIGN.md section 5, C16",
+        "note": TRUSTED + " Hash agreement is demanded for equal objects only.",
+    },
 }
 
 NOT_YET = {
